@@ -155,7 +155,7 @@ def run_C01(ctx):
                           [c, d], {"H_enc": r1["H"][c.cid], "H_dec": h, "m": hx(m)})
 
 
-WIDTHS = {4: [1, 4], 8: [1, 3], 16: [1, 2, 3, 8]}
+WIDTHS = {1: [1, 4], 2: [3, 5], 4: [1, 4, 8], 8: [1, 3], 16: [1, 2, 3, 8]}
 
 
 def width_variants(bs, w):
